@@ -12,7 +12,19 @@ COMMON_NOTE = ("Trusted: Lean 4.33.0 kernel; axioms per theorem as printed by #p
                "/repo's current source by the correspondence run named in the technique field. ")
 
 # property id -> dict(level, text, technique, note, design_ref)
-CLAIMED = {}
+CLAIMED = {
+    "C12": dict(
+        level="proof",
+        text="Lean theorems over ALL 2^32 int32s, ALL 2^64 double bit patterns and all 48-bit addresses (i32_roundtrip, float_roundtrip, "
+             "nan_canonical, float_never_other, kinds_disjoint, refcount_dispatch, pointer_roundtrip, nanbox_refines_enum, encode_injective) "
+             "about a model that is regenerated from nan_boxed.rs on every run; the glue around it (JsValue API, typed arrays, DataView) is "
+             "tied by a correspondence run on structured bit patterns. Proof is the right level because the property quantifies over every "
+             "bit pattern, which bit-blasting decides completely.",
+        technique="Lean 4 theorems (bv_decide bit-blasting) over a translator-regenerated model of mod bits + correspondence run against the real JsValue",
+        note="bv_decide axioms (<theorem>._native.bv_decide.ax_*) are accepted for this property and listed in the evidence. "
+             "Modelled, not verified: unsafe pointer reconstruction, legacy.rs enum representation (thorough tier compares a second build).",
+    ),
+}
 
 ALL = ["C%02d" % i for i in range(1, 21)]
 NOT_YET = "not claimed yet: model, correspondence and first theorem for this property are not built (see DESIGN.md §7 build order)"
